@@ -756,3 +756,58 @@ Fixpoint check_from (cfg : config) (s : state) (i : N) (cs : list (call * obs)) 
   end.
 Definition check_script (cfg : config) (cs : list (call * obs)) : list N := check_from cfg init_state 0 cs.
 End Compare.
+
+(* ================================================================ tenant index assignment and restart
+   (used by the correspondence only; the theorems are per configuration)
+   TenantIdMapper::load_or_create on a fresh data dir: the tenant ids of the ENABLED keys (one entry
+   per API key) are sorted, DE-DUPLICATED and numbered 0,1,2…; the map is persisted (tenants.json).
+   On a later start the persisted map is loaded and `ensure_tenant` gives a tenant it has not seen
+   the index `map.len()` (start-up recount loop + interceptor). *)
+Definition tmap := list (str * N).
+Fixpoint tm_get (m : tmap) (t : str) : option N :=
+  match m with [] => None | (t', i) :: r => if str_eqb t t' then Some i else tm_get r t end.
+Fixpoint sinsert (t : str) (l : list str) : list str :=
+  match l with
+  | [] => [t]
+  | x :: r => if str_eqb t x then l else if str_ltb t x then t :: l else x :: sinsert t r
+  end.
+Definition sort_dedup (l : list str) : list str := fold_right sinsert [] l.
+Fixpoint enumerate_from (i : N) (l : list str) : tmap :=
+  match l with [] => [] | t :: r => (t, i) :: enumerate_from (i + 1) r end.
+Definition tmap_create (enabled_tids : list str) : tmap := enumerate_from 0 (sort_dedup enabled_tids).
+Definition tmap_ensure (m : tmap) (t : str) : tmap :=
+  match tm_get m t with Some _ => m | None => m ++ [(t, N.of_nat (List.length m))] end.
+Definition tmap_ensure_all (m : tmap) (tids : list str) : tmap := fold_left tmap_ensure tids m.
+
+(* one API-key entry of the key file: key id, tenant id, enabled, admin, max_vectors *)
+Record keyspec := mkSpec { ks_key : N; ks_tid : str; ks_enabled : bool; ks_admin : bool; ks_maxvec : N }.
+Definition enabled_tids (specs : list keyspec) : list str :=
+  map ks_tid (List.filter ks_enabled specs).
+Definition mk_config (m : tmap) (specs : list keyspec) (dim : N) : config :=
+  mkCfg (map (fun k => (ks_key k,
+                        mkKey (match tm_get m (ks_tid k) with Some i => i | None => 4294967295 end)
+                              (ks_tid k) (ks_enabled k) (ks_admin k) (ks_maxvec k))) specs) dim.
+
+Section Restart.
+Variable idx_str : N -> str.
+Variable score : Z -> Z.
+(* graceful stop + start on the same data dir: documents and usage survive (WAL, usage snapshot), the
+   hot tier is empty, tenant_vector_counts is recounted for every enabled tenant of the new key file *)
+Definition recount (ds : docs) (t : N) : N :=
+  len (List.filter (fun p => match mget (d_meta (snd p)) K_TIDX with Some x => str_eqb x (idx_str t) | None => false end) ds).
+Definition restart_state (cfg : config) (s : state) : state :=
+  let tenants := map (fun p => k_tenant (snd p)) (List.filter (fun p => k_enabled (snd p)) (c_keys cfg)) in
+  mkState (st_docs s)
+          (fold_left (fun m t => nset m t (recount (st_docs s) t)) tenants [])
+          (st_usage s) [].
+(* phases: (configuration, index of the first call, calls with observations); a restart in between *)
+Fixpoint check_phases_from (s : state) (first : bool) (ps : list (config * N * list (call * obs))) : list N :=
+  match ps with
+  | [] => []
+  | (cfg, i0, cs) :: r =>
+      let s0 := if first then s else restart_state cfg s in
+      check_from idx_str score cfg s0 i0 cs
+      ++ check_phases_from (fst (run_from idx_str score cfg s0 (map fst cs))) false r
+  end.
+Definition check_phases (ps : list (config * N * list (call * obs))) : list N := check_phases_from init_state true ps.
+End Restart.
